@@ -425,3 +425,20 @@ M('c15b-piece-not-stored-for-key', 'C15', 'break', UE, "        if ((data != NUL
 M('c15c-finalize-order', 'C15', 'break', UE, "    urlenp->_complete = 1;\n    return htp_urlenp_parse_partial(urlenp, NULL, 0);", "    htp_status_t rc = htp_urlenp_parse_partial(urlenp, NULL, 0);\n    urlenp->_complete = 1;\n    return rc;", 'C15.c')
 M('c15c-value-not-decoded', 'C15', 'break', UE, "                htp_tx_urldecode_params_inplace(urlenp->tx, name);\n                htp_tx_urldecode_params_inplace(urlenp->tx, value);", "                htp_tx_urldecode_params_inplace(urlenp->tx, name);", 'C15.c')
 M('c15b-builder-not-cleared', 'C14', 'break', UE, "            if (field == NULL) return;\n\n            bstr_builder_clear(urlenp->_bb);", "            if (field == NULL) return;\n", 'C14.b', )
+
+# ---------------- C01
+M('c01a-peek-off-by-one', 'C01', 'break', RQ, "#define IN_PEEK_NEXT(X) \\\nif ((X)->in_current_read_offset >= (X)->in_current_len) { \\", "#define IN_PEEK_NEXT(X) \\\nif ((X)->in_current_read_offset > (X)->in_current_len) { \\", 'C01.a')
+M('c01a-h-lookahead-unguarded', 'C01', 'break', RS, "                if (connp->out_current_read_offset+1 < connp->out_current_len && (connp->out_current_data[connp->out_current_read_offset] == 'H' || len <= 2)) {", "                if ((connp->out_current_data[connp->out_current_read_offset] == 'H' || len <= 2) && connp->out_current_read_offset+1 < connp->out_current_len) {", 'C01.a')
+M('c01a-keep-local-offset', 'C01', 'keep', RS, "            if (connp->out_current_read_offset < connp->out_current_len &&\n                connp->out_current_data[connp->out_current_read_offset] != LF) {", "            if (!(connp->out_current_read_offset >= connp->out_current_len) &&\n                connp->out_current_data[connp->out_current_read_offset] != LF) {")
+M('c01b-u-decode-guard-4', 'C01', 'break', UT, "                        if (rpos + 5 < len) {\n                            if (isxdigit(data[rpos + 2]) && (isxdigit(data[rpos + 3]))\n                                    && isxdigit(data[rpos + 4]) && (isxdigit(data[rpos + 5]))) {\n                                // Decode a valid %u encoding\n                                c = decode_u_encoding_path", "                        if (rpos + 4 < len) {\n                            if (isxdigit(data[rpos + 2]) && (isxdigit(data[rpos + 3]))\n                                    && isxdigit(data[rpos + 4]) && (isxdigit(data[rpos + 5]))) {\n                                // Decode a valid %u encoding\n                                c = decode_u_encoding_path", 'C01.b')
+M('c01b-cookie-scan-le', 'C01', 'break', 'htp/htp_cookies.c', "        while ((pos < len) && (data[pos] != ';')) pos++;", "        while ((pos <= len) && (data[pos] != ';')) pos++;", 'C01.b')
+M('c01b-d12-guard-removed', 'C01', 'break', SG, "    if (value_end > value_start) {\n        prev = value_end - 1;", "    {\n        prev = value_end - 1;", 'C01.b')
+M('c01b-keep-hoisted-read', 'C01', 'keep', 'htp/htp_cookies.c', "    while (pos < len) {", "    while (!(pos >= len)) {")
+M('c01c-tx-hostname-leak', 'C01', 'break', TX, "    bstr_free(tx->request_hostname);\n", "", 'C01.c')
+M('c01c-mpartp-pending-header-leak', 'C01', 'break', MP, "    bstr_free(parser->pending_header_line);\n", "", 'C01.c')
+M('c01c-response-hook-leak-again', 'C01', 'break', TX, "    htp_hook_destroy(tx->hook_response_body_data);\n", "", 'C01.c')
+M('c01c-keep-helper', 'C01', 'keep', TX, "    bstr_free(tx->response_line);\n    bstr_free(tx->response_protocol);", "    bstr *tmp_rl = tx->response_line;\n    bstr_free(tmp_rl);\n    bstr_free(tx->response_protocol);")
+M('c01d-no-parser-unlink', 'C01', 'break', TX, "    htp_conn_remove_tx(tx->conn, tx);\n    htp_connp_tx_remove(tx->connp, tx);", "    htp_conn_remove_tx(tx->conn, tx);", 'C01.d')
+M('c01d-remove-only-in-tx', 'C01', 'break', CP, "    if (connp->out_tx == tx) {\n        connp->out_tx = NULL;\n    }\n}", "}", 'C01.d')
+M('c01e-use-tx-after-finalize', 'C01', 'break', TX, "    // At this point, tx may no longer be valid.\n\n    connp->in_tx = NULL;", "    // At this point, tx may no longer be valid.\n\n    tx->connp->in_tx = NULL;", 'C01.e')
+M('c01g-new-unguarded-arithmetic', 'C01', 'break', RQ, "    if (connp->in_data_receiver_hook == NULL) return HTP_OK;\n\n    htp_status_t rc = htp_connp_req_receiver_send_data(connp, 1 /* last */);", "    if (connp->in_data_receiver_hook == NULL) return HTP_OK;\n    connp->in_next_byte = *(connp->in_current_data + connp->in_current_receiver_offset);\n\n    htp_status_t rc = htp_connp_req_receiver_send_data(connp, 1 /* last */);", 'C01.g')
